@@ -76,6 +76,20 @@ def run(ctx, rep):
     # 16-bit value (checked narrowing; a wider value would wrap the target around)
     from rules import c02 as _c02
     _c02.check_primitives(ctx, rep, rule='R11.5', only=('emit_u16', 'change_jump_operand_at'))
+    # the value of a branch / loop body is recovered by asking whether the block's last INSTRUCTION is Pop and taking it out: the
+    # peephole primitives answer for the last instruction written, not for the last byte (which may belong to a jump operand)
+    rep.rule('R11.7', 'the peephole primitives that give a block its value look at the last instruction emitted: emit_opcode records it, last_instruction_is tests that record, remove_last_instruction removes exactly that instruction')
+    _c02.check_primitives(ctx, rep, rule='R11.7', only=('emit_opcode', 'last_instruction_is', 'remove_last_instruction'))
+    # `stop` / `volgende` outside any loop are rejected - also by a compiler that is kept after a failed line: no loop context (and no
+    # peephole record) of the failed line is left behind
+    rep.rule('R11.8', 'a failed compilation leaves no loop context and no peephole record behind: on the next line `stop` / `volgende` outside a loop are still rejected, and block values are not computed from stale state')
+    n8 = 0
+    for v in R['violations']:
+        if v['oblig'] == 'R17.2' and ('loop context' in v['text'] or 'peephole' in v['text']):
+            n8 += 1
+            rep.bad('R11.8', COMPILER + '::' + v['method'], v['construct'], v['text'], 'src/compiler.rs', key=v['kc'])
+    if not n8:
+        rep.good('R11.8', COMPILER + '::compile_ast', 'error exits (CSA)', '%d error exits of the top-level driver examined: no loop context, no peephole record survives' % len(R.get('toperrs', [])), 'src/compiler.rs')
 
     # CSA violations on the control-flow arms
     for v in R['violations']:
